@@ -85,7 +85,13 @@ func main() {
 	corpus := flag.String("corpus", "", "corpus file (case lines run first)")
 	dump := flag.String("dump", "", "write all case lines here")
 	variant := flag.String("variant", "", "generator variant")
+	prop := flag.String("prop", "", "property the run is for (selects direct oracles)")
+	replay := flag.String("replay", "", "replay file written by ./check")
 	flag.Parse()
+	_ = prop
+	if *replay != "" {
+		os.Exit(doReplay(*replay, *driver))
+	}
 
 	var sum *Summary
 	var err error
@@ -105,4 +111,31 @@ func main() {
 	} else {
 		fmt.Println(string(js))
 	}
+}
+
+// doReplay re-runs the case stored in a replay file on the model and prints both outputs.
+func doReplay(path, driver string) int {
+	raw, err := os.ReadFile(path)
+	if err != nil {
+		fmt.Fprintln(os.Stderr, err)
+		return 2
+	}
+	var m map[string]any
+	if err := json.Unmarshal(raw, &m); err != nil {
+		fmt.Fprintln(os.Stderr, err)
+		return 2
+	}
+	fmt.Printf("kind: %v\nwhat: %v\n", m["kind"], m["what"])
+	c, _ := m["case"].(string)
+	if c == "" {
+		fmt.Println("(no case line in this replay file)")
+		return 0
+	}
+	out, err := runDriver(driver, []string{c})
+	if err != nil {
+		fmt.Fprintln(os.Stderr, err)
+		return 2
+	}
+	fmt.Printf("case:  %s\nimpl (recorded): %v\nmodel (now):     %s\n", c, m["impl"], out[0])
+	return 0
 }
